@@ -219,6 +219,25 @@ def getProcessesKids : List (String × Tree) → KVs
 end
 
 mutual
+/-- `Store.get_steps()` -/
+def getSteps : Tree → Option Val
+  | .node a inner =>
+    if !inner.isEmpty then
+      let ps := getStepsKids inner
+      if ps.isEmpty then none else some (.dict ps)
+    else if a.value.isProc then some a.value else none
+def getStepsKids : List (String × Tree) → KVs
+  | [] => []
+  | (k, c) :: rest =>
+    (if !c.inner.isEmpty then
+      (match getSteps c with
+        | some v => [(k, v)]
+        | none => [])
+     else if c.attrs.value.isProc && c.attrs.value.procIsStep then [(k, c.attrs.value)] else [])
+    ++ getStepsKids rest
+end
+
+mutual
 /-- `Store.get_topology()` -/
 def getTopology : Tree → Option Val
   | .node a inner =>
@@ -646,7 +665,18 @@ def divideDaughter (fuel : Nat) (here : Path) (mother : String) (acc : DivAcc)
         let mm ← lift (deepMergeCheck a b)
         pure (Val.dict mm)
       | _, _ => throw .typeError
-    else pure ((getProcesses m).getD (.dict []))
+    else do
+      -- the mother's processes and steps (her flow is inherited below)
+      let p := (getProcesses m).getD (.dict [])
+      let st := (getSteps m).getD (.dict [])
+      match p, st with
+      | .dict a, .dict b =>
+        -- (`deep_merge_check(processes, {})` changes nothing)
+        if b.isEmpty then pure (Val.dict a)
+        else do
+          let mm ← lift (deepMergeCheck a b)
+          pure (Val.dict mm)
+      | _, _ => throw .attributeError
   let topology := match KV.lookup "topology" dk with
     | some tp => tp
     | none => (getTopology m).getD (.dict [])
